@@ -65,6 +65,11 @@ CHECKS = {
             "typed-equal to what the first accepting member (order from typing.get_args of the spelled type) returns alone; each value sequence is replayed a second time on the "
             "memoised converter (history independence); serialisation must come from a member that round-trips the value.",
             "Members are converted alone by the same implementation (strictly smaller types, themselves covered by C01). Member pool and value pools are fixed."),
+    'C12': ("exhaustive enumeration of tagged-union type configurations x layouts x wrapped data on the real converter; compositional oracle (the selected variant alone)",
+            "189 tagged types (7 tag sets incl. int, mixed and falsy tags x 3 body relations x 3 variant kinds x 3 layouts) are run on every variant body wrapped with every "
+            "declared, undeclared, absent and ill-kinded tag, the malformed wrappers of each layout, and all non-mappings; a declared tag must yield exactly that variant's own "
+            "result or error tree, anything else a ConvertError naming the tag; duplicate tags are refused at build; into_data must write the layout and read back equal.",
+            "Variant bodies and odd tags come from fixed lists; == -but-other-type tags are UNSPEC."),
     'C13': ("exhaustive enumeration of condition expressions (atoms closed under the combinators) x inner types x placements x boundary grid on the real converters; reference evaluator",
             "All 53 stock-condition atoms (every (min,max) pair of val_range / len_range over {None,0,5,2.5} / {None,0,1,2}, the seven adjectives, shape / broadcastable for five shapes, "
             "raising / user / non-bool predicates) closed under &, |, ~, Condition.all, Condition.any and multi-condition Annotated (1.1k expressions quick, two levels thorough) are "
